@@ -127,7 +127,9 @@ C11_SteadyObs ==
             a == MinOf(sampled)
             b == MaxOf(sampled \cup {clock - ftimes[n]})
             m == IF a < Prior THEN a ELSE Prior
-        IN (/\ ftimes[n] - ftimes[n - 1] <= MaxInterval
+        IN (/\ Gaps = sampled        \* no unsampled gap among the retained ones: the window (at most Window
+                                   \* samples) then holds nothing older than these gaps
+            /\ ftimes[n] - ftimes[n - 1] <= MaxInterval
             /\ deadEval < ftimes[n]
             /\ b <= MaxInterval
             /\ PhiN * m >= PhiD * b) => IsLive2) ]_<<dvars, hist>>
